@@ -98,14 +98,27 @@ def component_state_tables():
             # enclosing function: last "name (" at line start before the match
             head = txt[:mm.start()]
             fn = re.findall(r"^(\w[\w_]*)\s*\((?:[^;{]|\n)*?\)\s*\{", head, re.M)
-            sites.append((f, fn[-1] if fn else "?", args[-1]))
+            # the guard directly in front of the call: text between the previous statement end and the call
+            pre = re.sub(r"/\*.*?\*/", " ", head[-600:], flags=re.S)
+            pre = re.sub(r"\s+", " ", pre)
+            cut = max(pre.rfind(";"), pre.rfind("}"))
+            guard = pre[cut + 1:].strip()
+            if guard.startswith("{"):
+                guard = guard[1:].strip()
+            if guard == "" or guard == "{":
+                # call is the first statement of a block: take the block's own head
+                blk = pre[:cut + 1] if cut >= 0 else pre
+                mm2 = re.search(r"((?:else\s+)?if\s*\(.*\)|else)\s*\{\s*$", pre[:pre.rfind("{") + 1]) if "{" in pre else None
+                guard = mm2.group(1) if mm2 else ""
+            sites.append((f, fn[-1] if fn else "?", args[-1], guard[-160:]))
     def cs(x): return x
     text = "(* GENERATED from agent/agent.c, docs/reference/libnice/states.gv by lib/tabgen.py - do not edit *)\nFrom Coq Require Import List String.\nImport ListNotations.\n"
     text += "Inductive cstate := " + " | ".join(names) + ".\n"
     text += "Definition whitelist_pairs : list (cstate * cstate) := [" + "; ".join("(%s, %s)" % p for p in pairs) + "].\n"
     text += "Definition whitelist_any_target : list cstate := [" + "; ".join(anyt) + "].\n"
     text += "Definition doc_edges : list (cstate * cstate) := [" + "; ".join("(%s, %s)" % p for p in edges) + "].\n"
-    text += "Local Open Scope string_scope.\nDefinition call_sites : list (string * string * string) := [\n " + ";\n ".join('("%s", "%s", "%s")' % s for s in sites) + "].\n"
+    text += "Local Open Scope string_scope.\nDefinition call_sites : list (string * string * string) := [\n " + ";\n ".join('("%s", "%s", "%s")' % s[:3] for s in sites) + "].\n"
+    text += "Definition call_site_guards : list string := [\n " + ";\n ".join('"%s"' % s[3].replace('"', "'") for s in sites) + "].\n"
     vlib.write_if_changed(os.path.join(vlib.COQ, "Gen", "CompState.v"), text)
     return {"pairs": pairs, "any": anyt, "edges": edges, "sites": sites}, ""
 
